@@ -39,6 +39,7 @@ func main() {
 	listRules := flag.Bool("rules", false, "list rules per property")
 	dump := flag.Bool("dump", false, "print every obligation")
 	onlyRule := flag.String("rule", "", "run only this rule (development aid)")
+	dev := flag.String("dev", "", "development aid: run one rule from devRules and print its obligations")
 	flag.Parse()
 
 	if *tier == "" {
@@ -57,6 +58,8 @@ func main() {
 	}
 
 	switch {
+	case *dev != "":
+		os.Exit(runDev(*dev))
 	case *manifest:
 		if err := writeManifest(); err != nil {
 			fmt.Fprintln(os.Stderr, err)
